@@ -466,7 +466,7 @@ def run_property(prop, modname, tier, seed, level, assumptions, only=None):
             known_v.setdefault(v["fingerprint"], (k, v))
         else:
             new_v.append(v)
-    vdir = os.path.join(VERIF, "violations", prop)
+    vdir = os.path.join(os.environ.get("VERIF_VIOLATIONS_DIR", os.path.join(VERIF, "violations")), prop)
     lines = []
     for fp, (k, v) in sorted(known_v.items()):
         lines.append(f"KNOWN-FINDING: property={prop} {k['what']} [{fp}]")
@@ -512,9 +512,10 @@ def run_property(prop, modname, tier, seed, level, assumptions, only=None):
         "wall_s": round(time.time() - t0, 2),
         "violations": len(seen_fp),
     }
-    os.makedirs(os.path.join(VERIF, "evidence"), exist_ok=True)
-    with open(os.path.join(VERIF, "evidence", f"{prop}.json"), "w") as f:
-        json.dump(ev, f, indent=1, sort_keys=True)
+    if not os.environ.get("VERIF_NO_EVIDENCE"):  # set only by tools_seed.py --scratch (runs against a scratch copy)
+        os.makedirs(os.path.join(VERIF, "evidence"), exist_ok=True)
+        with open(os.path.join(VERIF, "evidence", f"{prop}.json"), "w") as f:
+            json.dump(ev, f, indent=1, sort_keys=True)
     for l in lines:
         print(l)
     print(
